@@ -53,39 +53,86 @@ theorem Tbl.has_set_of_has (t : Tbl) (p n p' n' : String) (l : List Cmd) (h : t.
     simp only [hp', Bool.false_eq_true, if_false]
     exact h
 
+theorem Tbl.get_set (t : Tbl) (p n p' n' : String) (l : List Cmd) :
+    (t.set p n l).get p' n' = if p = p' ∧ n = n' then l else t.get p' n' := by
+  unfold Tbl.get Tbl.names Tbl.set
+  rw [assocGet_assocSet]
+  by_cases hp : p = p'
+  · subst hp
+    simp only [beq_self_eq_true, if_true, Option.getD_some, true_and]
+    rw [assocGet_assocSet]
+    by_cases hn : n = n'
+    · subst hn; simp
+    · have : (n == n') = false := by simpa using hn
+      simp [this, hn, Tbl.names]
+  · have : (p == p') = false := by simpa using hp
+    simp [this, hp]
+
+/-- The list written last for key `(p, n)`. -/
+def lastWrite (w : List (Key × List Cmd)) (p n : String) : Option (List Cmd) :=
+  ((w.filter (fun x => x.1.1 == p && x.1.2 == n)).getLast?).map (·.2)
+
+theorem lastWrite_append (w : List (Key × List Cmd)) (p n p' n' : String) (l : List Cmd) :
+    lastWrite (w ++ [((p, n), l)]) p' n' = if p = p' ∧ n = n' then some l else lastWrite w p' n' := by
+  unfold lastWrite
+  rw [List.filter_append]
+  by_cases h : p = p' ∧ n = n'
+  · obtain ⟨rfl, rfl⟩ := h
+    simp [List.filter_cons]
+  · have : ((p == p') && (n == n')) = false := by
+      simp only [Bool.and_eq_false_iff, beq_eq_false_iff_ne]
+      by_cases hp : p = p'
+      · exact Or.inr (fun hn => h ⟨hp, hn⟩)
+      · exact Or.inl hp
+    simp [List.filter_cons, this, h]
+
+/-- The table holds, for every key written during the merge, the list written last. -/
+def LogOK (s : St) : Prop := ∀ p n l, lastWrite s.writes p n = some l → s.a.get p n = l
+
 structure Ext (s s' : St) : Prop where
+  tbl  : LogOK s → LogOK s'
+  wsub : ∀ x, x ∈ s.writes → x ∈ s'.writes
   keys : ∀ p n, s.a.has p n = true → s'.a.has p n = true
   tru  : ∀ k, s.isRefd k = true → s'.isRefd k = true
   seen : ∀ k, k ∈ s.seen → k ∈ s'.seen
   sub  : ∀ k, k ∈ s.log → k ∈ s'.log
   inv  : LogInv s → LogInv s'
 
-theorem Ext.refl (s : St) : Ext s s := ⟨fun _ _ h => h, fun _ h => h, fun _ h => h, fun _ h => h, fun h => h⟩
+theorem Ext.refl (s : St) : Ext s s := ⟨fun h => h, fun _ h => h, fun _ _ h => h, fun _ h => h, fun _ h => h, fun _ h => h, fun h => h⟩
 
 theorem Ext.trans {a b c : St} (h1 : Ext a b) (h2 : Ext b c) : Ext a c :=
-  ⟨fun p n h => h2.keys p n (h1.keys p n h), fun k h => h2.tru k (h1.tru k h), fun k h => h2.seen k (h1.seen k h), fun k h => h2.sub k (h1.sub k h),
+  ⟨fun h => h2.tbl (h1.tbl h), fun x h => h2.wsub x (h1.wsub x h), fun p n h => h2.keys p n (h1.keys p n h), fun k h => h2.tru k (h1.tru k h), fun k h => h2.seen k (h1.seen k h), fun k h => h2.sub k (h1.sub k h),
    fun h => h2.inv (h1.inv h)⟩
 
 /-- Storing a list in the table. -/
-theorem Ext.setA (s : St) (p n : String) (l : List Cmd) : Ext s { s with a := s.a.set p n l } :=
-  ⟨fun p' n' h => Tbl.has_set_of_has _ _ _ _ _ _ h, fun _ h => h, fun _ h => h, fun _ h => h, fun h => h⟩
+theorem Ext.setA (s : St) (p n : String) (l : List Cmd) : Ext s (s.store p n l) := by
+  refine ⟨fun h p' n' l' hl => ?_, fun x hx => List.mem_append_left _ hx,
+    fun p' n' h => Tbl.has_set_of_has _ _ _ _ _ _ h, fun _ h => h, fun _ h => h, fun _ h => h, fun h => h⟩
+  simp only [St.store] at hl ⊢
+  rw [lastWrite_append] at hl
+  rw [Tbl.get_set]
+  by_cases hk : p = p' ∧ n = n'
+  · simp only [hk, and_self, if_true, Option.some.injEq] at hl ⊢
+    exact hl
+  · simp only [hk, if_false] at hl ⊢
+    exact h p' n' l' hl
 
 theorem isRefd_markRef (s : St) (k k' : Key) :
     (s.markRef k).isRefd k' = true ↔ k' = k ∨ s.isRefd k' = true := by
   simp [St.markRef, St.isRefd]
 
 theorem Ext.markRef (s : St) (k : Key) : Ext s (s.markRef k) := by
-  refine ⟨fun _ _ h => h, fun k' h => ?_, fun _ h => h, fun _ h => h, fun h => ⟨h.1, fun k' hk' => ?_⟩⟩
+  refine ⟨fun h => h, fun _ h => h, fun _ _ h => h, fun k' h => ?_, fun _ h => h, fun _ h => h, fun h => ⟨h.1, fun k' hk' => ?_⟩⟩
   · exact (isRefd_markRef s k k').mpr (Or.inr h)
   · exact (isRefd_markRef s k k').mpr (Or.inr (h.2 k' hk'))
 
 theorem Ext.markSeen (s : St) (k : Key) : Ext s (s.markSeen k) :=
-  ⟨fun _ _ h => h, fun _ h => h, fun _ h => List.mem_append_left _ h, fun _ h => h, fun h => h⟩
+  ⟨fun h => h, fun _ h => h, fun _ _ h => h, fun _ h => h, fun _ h => List.mem_append_left _ h, fun _ h => h, fun h => h⟩
 
 /-- Handing a not yet referenced object over to `mergeCmds`. -/
 theorem Ext.handOver (s : St) (k : Key) (hk : s.isRefd k = false) :
     Ext s { s.markRef k with log := s.log ++ [k] } := by
-  refine ⟨fun _ _ h => h, fun k' h => ?_, fun _ h => h, fun k' h => List.mem_append_left _ h, fun h => ⟨?_, fun k' hk' => ?_⟩⟩
+  refine ⟨fun h => h, fun _ h => h, fun _ _ h => h, fun k' h => ?_, fun _ h => h, fun k' h => List.mem_append_left _ h, fun h => ⟨?_, fun k' hk' => ?_⟩⟩
   · show (s.markRef k).isRefd k' = true
     exact (Ext.markRef s k).tru k' h
   · show (s.log ++ [k]).Nodup
